@@ -54,7 +54,7 @@ def governed(lines, i):
 
 def allowed(attr, item, rel):
     if attr == ON:
-        if re.fullmatch(r"use crate::verif::sync::[A-Za-z_:{}, ]+;", item):
+        if re.fullmatch(r"use crate::verif::sync::[A-Za-z0-9_:{}, *]+;", item):
             return True
         if re.fullmatch(r'crate::verif::point\("[a-z_]+"\);', item):
             return True
@@ -62,7 +62,7 @@ def allowed(attr, item, rel):
             return True
     if attr in (ON, OFF):
         # the other half of an import switch (the hooked files split their `use std::{..}`)
-        if re.fullmatch(r"use std::[A-Za-z_:{}, ]+;", item) and "verif" not in item:
+        if re.fullmatch(r"use std::[A-Za-z0-9_:{}, *]+;", item) and "verif" not in item:
             return True
     return False
 
